@@ -64,8 +64,8 @@ def adapter_keys():
 
 
 # ------------------------------------------------------------------ concretisation (gamma)
-C, G = 6, 2  # channels / groups of the GroupNormalization items
 BIG = 1100   # > _BIG_TENSOR_SIZE_LIMIT elements: the C-API wrapper strips the value
+NOAXIS = 99  # VersionConvert.tla: D.ax
 
 
 def _vi(name, dtype, shape):
@@ -74,102 +74,113 @@ def _vi(name, dtype, shape):
     return h.make_tensor_value_info(name, dtype, shape)
 
 
-def build_item(i: int, kind: str, s: int, rng: np.random.Generator):
+def build_item(i: int, kind: str, par: dict, s: int, rng: np.random.Generator):
     """One model item: returns dict(nodes, ins, outs, inits, feeds, y).  All names carry index i.
-    The concrete node is the form of `kind` that is valid at source opset `s`."""
+    `par` is the parameter record of VersionConvert.tla; the concrete node is the form of
+    (kind, par) that is valid at source opset `s`."""
     from onnx import TensorProto as T
     from onnx import helper as h
     from onnx import numpy_helper as nh
 
     x, y = f"x{i}", f"y{i}"
     ins, inits, feeds, nodes = [], [], {}, []
-    outshape = None
     outtype = T.FLOAT
 
     def fl(*shape):
         return rng.integers(-4, 5, size=shape).astype(np.float32) * np.float32(0.5)
 
-    if kind == "relu":
+    if kind in ("relu", "cast", "custom"):
         ins = [_vi(x, T.FLOAT, [2, 3])]
         feeds[x] = fl(2, 3)
-        nodes = [h.make_node("Relu", [x], [y], name=f"n{i}")]
+        if kind == "relu":
+            nodes = [h.make_node("Relu", [x], [y], name=f"n{i}")]
+        elif kind == "cast":
+            nodes = [h.make_node("Cast", [x], [y], to=T.INT32, name=f"n{i}")]
+            outtype = T.INT32
+        else:
+            nodes = [h.make_node("Gelu", [x], [y], domain="com.microsoft", name=f"n{i}")]
         outshape = [2, 3]
-    elif kind == "cast":
-        ins = [_vi(x, T.FLOAT, [2, 3])]
-        feeds[x] = fl(2, 3)
-        nodes = [h.make_node("Cast", [x], [y], to=T.INT32, name=f"n{i}")]
-        outshape, outtype = [2, 3], T.INT32
-    elif kind == "custom":
-        ins = [_vi(x, T.FLOAT, [2, 3])]
-        feeds[x] = fl(2, 3)
-        nodes = [h.make_node("Gelu", [x], [y], domain="com.microsoft", name=f"n{i}")]
-        outshape = [2, 3]
-    elif kind in ("add_small", "add_big", "add_ovr"):
-        n = BIG if kind == "add_big" else 3
+    elif kind == "add":
+        n = BIG if par["big"] else 3
         ins = [_vi(x, T.FLOAT, [2, n])]
         feeds[x] = fl(2, n)
         w = f"w{i}"
         wv = (np.arange(n, dtype=np.float32) % 7) - 3
         inits = [nh.from_array(wv, w)]
-        if kind == "add_ovr":  # initializer that is also a graph input (overridable default)
+        if par["ovr"]:  # initializer that is also a graph input (overridable default)
             ins.append(_vi(w, T.FLOAT, [n]))
         nodes = [h.make_node("Add", [x, w], [y], name=f"n{i}")]
         outshape = [2, n]
-    elif kind in ("dft_axis", "dft_noaxis_r3", "dft_noaxis_r4"):
-        shape = [2, 4, 1] if kind == "dft_noaxis_r3" else [1, 3, 4, 1]
+    elif kind == "dft":
+        last = 2 if par["iv"] else 1                    # inverse: complex input
+        shape = ([2, 3, 4] if par["rk"] == 4 else [3, 4]) + [last]
         ins = [_vi(x, T.FLOAT, shape)]
         feeds[x] = fl(*shape)
         outshape = shape[:-1] + [2]
-        if kind == "dft_axis":
-            if s < 20:
-                nodes = [h.make_node("DFT", [x], [y], axis=2, name=f"n{i}")]
-            else:
-                ax = f"ax{i}"
-                inits = [nh.from_array(np.array(2, dtype=np.int64), ax)]
-                nodes = [h.make_node("DFT", [x, "", ax], [y], name=f"n{i}")]
+        if par["ax"] != NOAXIS:
+            a = par["ax"] % len(shape)
+            n = par["ln"] if par["ln"] > 0 else shape[a]
+            outshape[a] = n // 2 + 1 if par["os"] else n
+        attrs = {}
+        if par["os"]:
+            attrs["onesided"] = 1
+        if par["iv"]:
+            attrs["inverse"] = 1
+        ln = ""
+        if par["ln"] > 0:
+            ln = f"ln{i}"
+            inits.append(nh.from_array(np.array(par["ln"], dtype=np.int64), ln))
+        if par["ax"] == NOAXIS:
+            nodes = [h.make_node("DFT", [x], [y], name=f"n{i}", **attrs)]
+        elif s < 20:
+            nodes = [h.make_node("DFT", [x] + ([ln] if ln else []), [y], axis=par["ax"], name=f"n{i}", **attrs)]
         else:
-            nodes = [h.make_node("DFT", [x], [y], name=f"n{i}")]
-    elif kind in ("gs_bilinear", "gs_bicubic", "gs_nearest"):
+            ax = f"ax{i}"
+            inits.append(nh.from_array(np.array(par["ax"], dtype=np.int64), ax))
+            nodes = [h.make_node("DFT", [x, ln, ax], [y], name=f"n{i}", **attrs)]
+    elif kind == "gs":
         g = f"g{i}"
         ins = [_vi(x, T.FLOAT, [1, 1, 3, 3]), _vi(g, T.FLOAT, [1, 2, 2, 2])]
         feeds[x] = fl(1, 1, 3, 3)
-        feeds[g] = (rng.integers(-8, 9, size=(1, 2, 2, 2)).astype(np.float32) / np.float32(8))
-        old = {"gs_bilinear": "bilinear", "gs_bicubic": "bicubic", "gs_nearest": "nearest"}[kind]
-        new = {"gs_bilinear": "linear", "gs_bicubic": "cubic", "gs_nearest": "nearest"}[kind]
-        nodes = [h.make_node("GridSample", [x, g], [y], mode=(old if s < 20 else new), name=f"n{i}")]
+        feeds[g] = (rng.integers(-10, 11, size=(1, 2, 2, 2)).astype(np.float32) / np.float32(8))
+        attrs = {}
+        if par["md"]:
+            new = {"bilinear": "linear", "bicubic": "cubic", "nearest": "nearest"}[par["md"]]
+            attrs["mode"] = par["md"] if s < 20 else new
+        if par["pd"]:
+            attrs["padding_mode"] = par["pd"]
+        if par["al"] >= 0:
+            attrs["align_corners"] = par["al"]
+        nodes = [h.make_node("GridSample", [x, g], [y], name=f"n{i}", **attrs)]
         outshape = [1, 1, 2, 2]
-    elif kind.startswith("gn_"):
+    elif kind == "gn":
         sc, b = f"sc{i}", f"b{i}"
-        groups = C if kind == "gn_g_eq_c" else G
-        per = groups if s < 21 else C      # opset 18-20: one scale per group; 21+: per channel
-        xshape = [1, C, 2]
-        if kind == "gn_symc":
-            xshape = [1, "Cdim", 2]
+        ch, groups = par["ch"], par["gr"]
+        per = groups if s < 21 else ch      # opset 18-20: one scale per group; 21+: per channel
+        dims = [par["nb"], ch] + [2] * (par["rk"] - 2)
+        xshape = list(dims)
+        if par["sh"] == "symc":
+            xshape[1] = "Cdim"
         ins = [_vi(x, T.FLOAT, xshape), _vi(sc, T.FLOAT, [per]), _vi(b, T.FLOAT, [per])]
-        feeds[x] = fl(1, C, 2) * fl(1, C, 2)
+        feeds[x] = fl(*dims) * fl(*dims)
         feeds[sc] = np.arange(1, per + 1, dtype=np.float32)
         feeds[b] = np.arange(per, dtype=np.float32) * np.float32(0.5)
         gx, gsc, gb = x, sc, b
         # "no shape" variants: the operand is an intermediate value without value_info (the IR
         # then has shape None for it; no shape inference is run by convert_version)
-        if kind == "gn_noxshape":
+        if par["sh"] == "nox":
             gx = x + "_i"
             nodes.append(h.make_node("Identity", [x], [gx], name=f"idx{i}"))
-        if kind == "gn_noscaleshape":
+        if par["sh"] == "nosc":
             gsc, gb = sc + "_i", b + "_i"
             nodes.append(h.make_node("Identity", [sc], [gsc], name=f"idsc{i}"))
             nodes.append(h.make_node("Identity", [b], [gb], name=f"idb{i}"))
-        extra = {"epsilon": 0.5} if kind == "gn_eps" else {}
+        extra = {"epsilon": 0.5} if par["ep"] else {}
         nodes.append(h.make_node("GroupNormalization", [gx, gsc, gb], [y], num_groups=groups, name=f"n{i}", **extra))
-        outshape = [1, C, 2]
-        if kind == "gn_symc":
-            outshape = [1, "Cdim", 2]
+        outshape = xshape
     else:
         raise core.MachineryError(f"unknown item kind {kind}")
-    if outshape is None:
-        out_vi = h.make_value_info(y, h.make_tensor_type_proto(outtype, None))
-    else:
-        out_vi = _vi(y, outtype, outshape)
+    out_vi = _vi(y, outtype, outshape)
     return {"nodes": nodes, "ins": ins, "outs": [out_vi], "inits": inits, "feeds": feeds, "y": y,
             "outtype": outtype}
 
@@ -187,7 +198,7 @@ def build_model(case: dict, feed_seed: int = 0):
     conds = []
     opsets = [h.make_opsetid("", s)]
     for i, it in enumerate(case["items"], start=1):
-        b = build_item(i, it["kind"], s, rng)
+        b = build_item(i, it["kind"], it["par"], s, rng)
         place = it["place"]
         if any(n.domain == "com.microsoft" for n in b["nodes"]) and not any(o.domain == "com.microsoft" for o in opsets):
             opsets.append(h.make_opsetid("com.microsoft", 1))
@@ -308,6 +319,24 @@ def _sig(m):
     return {"inputs": [vi(v) for v in m.graph.input], "outputs": [vi(v) for v in m.graph.output]}
 
 
+def _sig_kept(before, after) -> bool:
+    """same names, types and order; a dimension the source left unknown may have been filled in"""
+    for key in ("inputs", "outputs"):
+        if len(before[key]) != len(after[key]):
+            return False
+        for (n0, t0, s0), (n1, t1, s1) in zip(before[key], after[key]):
+            if n0 != n1 or t0 != t1:
+                return False
+            if s0 is None:
+                continue
+            if s1 is None or len(s0) != len(s1):
+                return False
+            for d0, d1 in zip(s0, s1):
+                if d0 != d1 and d0 != "?":
+                    return False
+    return True
+
+
 def _inits(m):
     from onnx import numpy_helper as nh
 
@@ -395,7 +424,7 @@ def observe(case: dict) -> dict:
     if not ob["runs"]:
         ob["run_error"] = after_run if isinstance(after_run, str) else next(x for x in after_run if isinstance(x, str))
     ob["equivalent"] = bool(runnable and _same_outputs(before_run, after_run))
-    ob["sig_kept"] = _sig(r) == _sig(m)
+    ob["sig_kept"] = _sig_kept(_sig(m), _sig(r))
     if not ob["sig_kept"]:
         ob["sig"] = {"before": _sig(m), "after": _sig(r)}
     bi, ai = _inits(m), _inits(r)
@@ -500,11 +529,20 @@ def compare_model(rec: dict, ob: dict) -> list[str]:
 
 def case_of(rec: dict) -> dict:
     return {"s": rec["s"], "t": rec["t"], "entry": rec["entry"], "fb": rec["fb"],
-            "items": [{"kind": i["kind"], "place": i["place"]} for i in rec["items"]]}
+            "items": [{"kind": i["kind"], "place": i["place"], "par": i["par"]} for i in rec["items"]]}
+
+
+_PAR_DEFAULT = {"ax": NOAXIS, "rk": 0, "os": 0, "iv": 0, "ln": 0, "md": "", "pd": "", "al": -1,
+                "ch": 0, "gr": 0, "ep": 0, "nb": 0, "sh": "", "big": False, "ovr": False}
+
+
+def item_text(i: dict) -> str:
+    par = ",".join(f"{k}={v}" for k, v in i["par"].items() if _PAR_DEFAULT.get(k) != v)
+    return f"{i['kind']}({par})@{i['place']}"
 
 
 def case_text(c: dict) -> str:
-    its = "+".join(f"{i['kind']}@{i['place']}" for i in c["items"])
+    its = "+".join(item_text(i) for i in c["items"])
     return f"[{its}] opset {c['s']}->{c['t']} entry={c['entry']} fallback={c['fb']}"
 
 
